@@ -5,7 +5,8 @@
    volume, post-fader sends into the send track's input buffer, send and main track) against P_C02
    (the documented formula evaluated per frame, plus 'every live sound asked for every frame exactly
    once, in order, in slices <= internal buffer') over families of scenes x buffer sizes x callback
-   sizes x pause/resume/finish/drop histories.
+   sizes x pause/resume/finish/drop histories (drop: sub-track or send-track handles; the routes to a removed
+   send track fall silent, every other route goes on).
 2. TLC-generated behaviours (scene + history + callback partition) are built on the real library with
    exact probes (bit-exact dyadic samples, halving effects, 0 dB / -60 dB volumes) and executed.
 3. TLC validates every recorded callback against P_C02 (T_C02.tla)."""
@@ -18,7 +19,7 @@ PROP = "C02"
 MANIFEST = dict(
     level="model_checking", design_ref="DESIGN.md 8 (C02), 7 (Mixer)",
     technique="TLA+ model of the mixer's buffer-level signal flow (TLC, scene families x buffer sizes x callback partitions x add/remove/pause histories) against the documented sum; TLC behaviours rebuilt on the real library with exact probes; TLC trace validation of every output frame against P_C02",
-    text="TLC checks for every scene of the explored families (chain or fork of two sub-tracks, send track with route table, halving effects on any track, muted branches), internal buffer sizes 1-3, callback sizes 1-4 including remainders, and histories of pausing, resuming, finishing sounds and dropping tracks, that the model of the code's buffer operations yields exactly the documented sum per frame, asks every live probe for every frame exactly once in order in slices no longer than the internal buffer, and leaves the send input buffer cleared. The same behaviours run on the real mixer with bit-exact probes, and TLC validates every recorded frame.",
+    text="TLC checks for every scene of the explored families (chain or fork of two sub-tracks, one or two send tracks with route tables, halving effects on any track, muted branches), internal buffer sizes 1-3, callback sizes 1-4 including remainders, and histories of pausing, resuming, finishing sounds and dropping sub-tracks and send tracks, that the model of the code's buffer operations yields exactly the documented sum per frame, asks every live probe for every frame exactly once in order in slices no longer than the internal buffer, and leaves the send input buffer cleared. The same behaviours run on the real mixer with bit-exact probes, and TLC validates every recorded frame.",
     note="Volumes are fixed per scene (0 dB or -60 dB) and fades are zero-length, so every sample is an exact dyadic rational (tweened volumes are covered by C06/C11). Track removal timing is simplified (tracks dropped only after pick-up; removal rules are C12's subject).")
 
 
@@ -45,8 +46,8 @@ def model_check(res, tier):
         if st["violated"]:
             res.drift.append({"model": "Mixer/" + name, "violated": st["violated"]})
         res.add_mc("Mixer/" + name, st)
-    for w in ("W_Nonzero", "W_SendAudible", "W_Remainder"):
-        tlc_check("MC_Mixer.tla", write_cfg("Mixer_%s.cfg" % w, cfg("QuickScenes", [2], [3], 0, 1, "VIEW View\nINVARIANT " + w)),
+    for w in ("W_Nonzero", "W_SendAudible", "W_Remainder", "W_SecondSendAlone"):
+        tlc_check("MC_Mixer.tla", write_cfg("Mixer_%s.cfg" % w, cfg("QuickScenes", [2], [3], 1 if w == "W_SecondSendAlone" else 0, 2, "VIEW View\nINVARIANT " + w)),
                   workers=4, timeout=900, expect_violation=w, tag="c02w")
 
 
